@@ -245,7 +245,13 @@ func Run(c *Config) Stats {
 					localRes[t.Op.Kind+"=>"+t.Result] = struct{}{}
 					if len(t.viol) > 0 {
 						viol := t.viol
-						if !t.Fresh {
+						allSeen := true
+						for _, v := range viol {
+							if !c.Ctx.HasSig(v.sig) {
+								allSeen = false
+							}
+						}
+						if !t.Fresh && !allSeen {
 							ft := c.step(c.build(n), n, oi, depth, true)
 							if ft == nil || len(ft.viol) == 0 {
 								atomic.AddInt64(&st.CloneOnlyAlarms, 1)
